@@ -163,9 +163,12 @@ def run_case(case):
             names = [n.replace(absname, "/dev/shm/zq%x" % (os.getpid() % 16)) for n in names]
             src = io.BytesIO(roland_image(kind.split("_")[1], names)[0])
         else:
-            tracks = [{"number": i + 1, "title": t, "indices": [(1, i * 3)]} for i, t in enumerate(names)]
+            # "positions": the start sector of every track + the length of the bin in bytes (tracks without a single frame:
+            # two tracks starting at one position, a last track starting at / less than a sector before the end of the bin)
+            pos = case.get("positions") or [i * 3 for i in range(len(names))]
+            tracks = [{"number": i + 1, "title": t, "indices": [(1, pos[i])]} for i, t in enumerate(names)]
             with open(os.path.join(work, "disc.bin"), "wb") as f:
-                f.write(Q.bin_bytes(Q.SECTOR * (3 * len(names) + 1)))
+                f.write(Q.bin_bytes(case.get("binlen", Q.SECTOR * (3 * len(names) + 1))))
             src = os.path.join(work, "disc.cue")
             with open(src, "wb") as f:
                 f.write(Q.cue_text("disc.bin", tracks).encode("latin-1"))
@@ -226,7 +229,7 @@ class Check(CheckBase):
             "'..', absolute path into the watched area, quotes, control and non-ASCII characters, '(2)' forms, empty stems) as "
             "Roland sample / performance / volume names (also below the pseudo volume that collects orphan performances, with and "
             "without real volumes on the disk) and as cue TITLEs; export into <scratch>/w/deep/dest with the "
-            "parents watched; names differing only in the length of a blank run (8 cue titles k<=3, 5 AKAI names k=3); 201-entry AKAI volumes with a pair / a duplicate whose stem is owned by a sibling 2..200 places away; "
+            "parents watched; names differing only in the length of a blank run (8 cue titles k<=3, 5 AKAI names k=3); CDDA tracks without a single frame (6 title sets x every start-position pattern over 3 sectors with repeats x bins ending 0 / 1 / 3 / 4 / 2351 / 2352 bytes behind the last start: every track is one reported file); 201-entry AKAI volumes with a pair / a duplicate whose stem is owned by a sibling 2..200 places away; "
             "AKAI volumes whose entries share one directory; AKAI images of 26 / 27 / 30 / 34 partitions (generated partition names beyond 'Z'); singles, doubled names and neighbouring (thorough: all) pairs again on an image object whose root "
             "and first-level items were listed before the export. Oracle: nothing created outside dest; Exported lines pairwise distinct and as many as files; "
             "every component non-empty, [\\w -.#()] only, begins with \\w, does not end in space or dot. non-trivial = two "
@@ -301,6 +304,17 @@ class Check(CheckBase):
                 cases.append({"kind": "cdda", "names": list(t)})
         for t in itertools.product(["A B", "A  B", "A   B", "A + B", "A+ B"], repeat=3):
             cases.append({"kind": "akai_files", "names": list(t)})
+        # CDDA tracks that hold no frame at all (every track is still one reported file): all start-position patterns with
+        # repeated positions over 2..3 tracks x bins that end at / 0..3 bytes / just under a sector behind the last start
+        for names in (["A", "B", "C"], ["A", "A", "A"], ["", "", ""], ["A", "B"], ["A", "A"], ["a/b", "a\\b", ".."]):
+            n = len(names)
+            for pos in itertools.combinations_with_replacement(range(3), n):
+                if pos[0] != 0 and n == 3:
+                    continue
+                for tail in (0, 1, 3, 4, Q.SECTOR - 1, Q.SECTOR):
+                    if len(set(pos)) == n and tail == Q.SECTOR:
+                        continue            # every track holds frames: the plain cases above
+                    cases.append({"kind": "cdda", "names": names, "positions": list(pos), "binlen": Q.SECTOR * pos[-1] + tail})
         # large directories (the uniqueness of a name must hold over the WHOLE directory, however it is processed): 201
         # siblings, an L/R pair somewhere and a sample (or a second pair) that already owns the pair's stem somewhere else
         def big(n, places):
